@@ -146,6 +146,9 @@ def _b_chord(ctx, size):
     return dict(args=(ri, rl, ei, el), kw={})
 
 
+MEL_LO = 20.0      # lower end of the symbolic melody frequencies (a job may lower it: melody has no documented minimum)
+
+
 def mel_freqs(ctx, tag, k):
     """k frequencies: each frame is unvoiced (0.0) or voiced with a log-domain symbolic frequency (fork per frame)"""
     out = []
@@ -154,7 +157,7 @@ def mel_freqs(ctx, tag, k):
         if uv:
             out.append(np.float64(0.0))
         else:
-            out.append(C.log_freqs(ctx, '%s%d' % (tag, i), 1)[0])
+            out.append(C.log_freqs(ctx, '%s%d' % (tag, i), 1, lo=MEL_LO)[0])
     return S.array(out) if k else C.events(ctx, tag + 'x', 0)
 
 
